@@ -109,6 +109,11 @@ def one_repo(arg):
                              [prev] if prev else [], cts=1500000000 + v, msg=(b"m%d " % v) * (1 + 9000 * (v % 3 == 0)) + b"\n")
                 prev = c
             m.refs["refs/heads/bigtrees"] = prev
+            if idx % 8 == 1:
+                from .C16 import big_tree_model
+                bm = big_tree_model(rng, versions=3)
+                m.refs["refs/heads/hugetrees"] = bm.refs["refs/heads/main"]
+                m.refs["refs/tags/hugetag"] = bm.refs["refs/tags/bigtag"]
         m.bare = False
         # several sibling refgroups (and a nested pair) so that the order of their rows is part of the output
         m.config = "".join('[refgroup "%s"]\n\tinclude = %s\n' % (g, pat) for g, pat in [
